@@ -1,11 +1,13 @@
 (* C08 -- byte-stream interfaces give the same bytes however the stream is cut into calls.
    PARTIAL in this file: the keystream wrappers (CTR all flavours, BelT-CTR, OFB) are proved in full
    generality (any list of pieces, empty pieces included, each piece in place or buffer-to-buffer
-   with any output contents, any block size / parallel width / cipher).  The statements for the
-   buffered CFB types and the prefix-preservation of one-shot CFB / CFB-8 are not proved yet; they
-   are covered only by the correspondence and the implementation-side predicate of gen/props/c08.py. *)
+   with any output contents, any block size / parallel width / cipher), and so are the buffered CFB
+   encryptor and decryptor (two calls = one call on the concatenation, from any state pos < bs, hence
+   any number of calls by induction; proved by refining the three-phase code to a byte-at-a-time
+   reading).  The prefix-preservation of one-shot CFB / CFB-8 is not proved yet; it is covered only by
+   the correspondence and the implementation-side predicate of gen/props/c08.py. *)
 From BM Require Import BlockModes Plumbing Toy Ints Ctr Belt Stream Cts Stream_proofs Interp Interp_proofs
-  Wrapper_proofs Wrapper_inst.
+  Wrapper_proofs Wrapper_inst Outcome Buf_proofs.
 
 (* the abstract refinement: a successful call xors the input with the keystream read from the current
    position and advances the position by exactly the request; a request that does not fit is an
@@ -67,6 +69,27 @@ Theorem C08_fresh_states : forall (C : cipher) si iv, cipher_wf C -> c_bs C = 16
   OfbInv C iv 0%N (from_core (kscore C SOfb) (ofb_at C iv 0)).
 Proof. intros. split; [eapply belt_fresh; eauto | eapply ofb_fresh; eauto]. Qed.
 Print Assumptions C08_fresh_states.
+
+(* buffered CFB (BufEncryptor: set1 = true, BufDecryptor: set1 = false) *)
+Theorem C08_buffered_cfb : forall (C : cipher), (forall x, length x = c_bs C -> length (c_E C x) = c_bs C) -> 0 < c_bs C ->
+  forall set1 (iv : block) pos a b, length iv = c_bs C -> pos < c_bs C ->
+  buf_apply C set1 (iv, pos) (a ++ b) =
+  (do r <- buf_apply C set1 (iv, pos) a;
+   let '(st1, o1) := r in
+   do r2 <- buf_apply C set1 st1 b;
+   let '(st2, o2) := r2 in Ok (st2, o1 ++ o2)).
+Proof. intros C HE Hb set1 iv pos a b. now apply buf_apply_app. Qed.
+Print Assumptions C08_buffered_cfb.
+
+(* ... and the state stays well formed, so the statement iterates *)
+Theorem C08_buffered_cfb_state : forall (C : cipher), (forall x, length x = c_bs C -> length (c_E C x) = c_bs C) -> 0 < c_bs C ->
+  forall set1 (iv : block) pos data, length iv = c_bs C -> pos < c_bs C ->
+  buf_apply C set1 (iv, pos) data = Ok (buf_bytes C set1 (iv, pos) data) /\
+  length (fst (fst (buf_bytes C set1 (iv, pos) data))) = c_bs C /\
+  snd (fst (buf_bytes C set1 (iv, pos) data)) < c_bs C /\
+  length (snd (buf_bytes C set1 (iv, pos) data)) = length data.
+Proof. intros C HE Hb set1 iv pos data Hl Hp. split; [now apply buf_apply_bytes | now apply buf_bytes_inv]. Qed.
+Print Assumptions C08_buffered_cfb_state.
 
 (* non-vacuity: pieces with an empty piece, an in-place piece and a buffer-to-buffer piece are well formed *)
 Example C08_pieces_example :
